@@ -167,16 +167,24 @@ def calls(yaml):
         out.append(("load-bytes:%s" % ln, "text", lambda i, k, L=L: summarize(yaml.load(TEXTS[i].encode("utf-16-be" if i % 2 else "utf-8"), Loader=L))))
         out.append(("load-stream:%s" % ln, "text", lambda i, k, L=L: summarize(yaml.load(io.StringIO(TEXTS[i]), Loader=L))))
     # user subclasses that use path resolvers (their resolver stacks are per-instance state)
-    PathLoader = type("PathLoader", (yaml.SafeLoader,), {})
-    PathLoader.add_path_resolver("!at-a", ["a"], dict)
-    PathLoader.add_path_resolver("!item", [None], str)
-    PathDumper = type("PathDumper", (yaml.SafeDumper,), {})
-    PathDumper.add_path_resolver("!at-a", ["a"], dict)
-    out.append(("compose_all:PathLoader", "text", lambda i, k: consume(yaml.compose_all(TEXTS[i], Loader=PathLoader), k)))
-    out.append(("load:PathLoader", "text", lambda i, k: summarize(yaml.load(TEXTS[i], Loader=PathLoader))))
-    out.append(("parse:PathLoader", "text", lambda i, k: consume(yaml.parse(TEXTS[i], Loader=PathLoader), k)))
-    out.append(("dump:PathDumper", "value", lambda i, k: yaml.dump(vals[i], Dumper=PathDumper)))
-    out.append(("serialize:PathDumper", "text", lambda i, k: yaml.serialize_all(list(yaml.compose_all(TEXTS[i])), Dumper=PathDumper)))
+    path_pairs = [("PathLoader", yaml.SafeLoader, "PathDumper", yaml.SafeDumper)]
+    if yaml.__with_libyaml__:
+        path_pairs.append(("CPathLoader", yaml.CSafeLoader, "CPathDumper", yaml.CSafeDumper))
+    for lname, lbase, dname, dbase in path_pairs:
+        PathLoader = type(lname, (lbase,), {})
+        PathLoader.add_path_resolver("!at-a", ["a"], dict)
+        PathLoader.add_path_resolver("!item", [None], str)
+        PathLoader.add_path_resolver("!deep", [None, None, None])
+        PathDumper = type(dname, (dbase,), {})
+        PathDumper.add_path_resolver("!at-a", ["a"], dict)
+        PathDumper.add_path_resolver("!item", [None], str)
+        out.append(("compose_all:%s" % lname, "text", lambda i, k, L=PathLoader: consume(yaml.compose_all(TEXTS[i], Loader=L), k)))
+        out.append(("load:%s" % lname, "text", lambda i, k, L=PathLoader: summarize(yaml.load(TEXTS[i], Loader=L))))
+        out.append(("load_all:%s" % lname, "text", lambda i, k, L=PathLoader: consume(yaml.load_all(TEXTS[i], Loader=L), k)))
+        out.append(("parse:%s" % lname, "text", lambda i, k, L=PathLoader: consume(yaml.parse(TEXTS[i], Loader=L), k)))
+        out.append(("dump:%s" % dname, "value", lambda i, k, D=PathDumper: yaml.dump(vals[i], Dumper=D)))
+        out.append(("dump_all:%s" % dname, "value", lambda i, k, D=PathDumper: yaml.dump_all([vals[i], vals[(i + 1) % len(vals)], vals[i]], Dumper=D)))
+        out.append(("serialize:%s" % dname, "text", lambda i, k, D=PathDumper: yaml.serialize_all(list(yaml.compose_all(TEXTS[i])), Dumper=D)))
     out.append(("safe_load", "text", lambda i, k: summarize(yaml.safe_load(TEXTS[i]))))
     out.append(("full_load_all", "text", lambda i, k: consume(yaml.full_load_all(TEXTS[i]), k)))
     for dn in dumper_classes(yaml):
